@@ -15,6 +15,7 @@ import (
 	"errors"
 	"fmt"
 	"io"
+	"math"
 	"strings"
 	"sync"
 	"testing"
@@ -50,13 +51,16 @@ type c05Spec struct {
 }
 
 func genC05(r *vh.Rand, idx int) c05Spec {
-	s := c05Spec{Transport: vhm.PairKinds[r.Intn(len(vhm.PairKinds))], Waiters: r.Intn(3)}
+	s := c05Spec{Transport: append([]string{"pipe-stubborn"}, vhm.PairKinds...)[r.Intn(len(vhm.PairKinds)+1)], Waiters: r.Intn(3)}
 	n := 0
 	horizon := r.Range(4, 12)
 	for i, k := 0, r.Range(2, 9); i < k; i++ {
 		n++
 		side := r.Choose("client", "client", "server")
-		if r.Chance(1, 4) {
+		if r.Chance(1, 12) {
+			// a notification whose params cannot be encoded (NaN): it fails locally and must leave no trace
+			s.Ops = append(s.Ops, c05Op{Kind: "notify-bad", Side: side, At: r.Intn(horizon), N: n})
+		} else if r.Chance(1, 4) {
 			s.Ops = append(s.Ops, c05Op{Kind: "notify", Side: side, At: r.Intn(horizon), N: n, Dur: r.Intn(4)})
 		} else {
 			s.Ops = append(s.Ops, c05Op{Kind: "call", Side: side, At: r.Intn(horizon), N: n, Dur: r.Intn(10)})
@@ -219,7 +223,7 @@ func runC05(c *vh.Case, spec c05Spec) {
 		}
 	}
 	po := vhm.PairOpts{Kind: spec.Transport, Server: server, Client: client, ClientVersion: "2025-06-18", WrapClient: wrap("client"), AsyncDelete: true}
-	if spec.Transport == "mem" || spec.Transport == "pipe" {
+	if spec.Transport == "mem" || spec.Transport == "pipe" || spec.Transport == "pipe-stubborn" {
 		po.WrapServer = wrap("server")
 	}
 	pair, err := vhm.Connect(ctx, po)
@@ -280,11 +284,14 @@ func runC05(c *vh.Case, spec c05Spec) {
 				}
 				log.Add("call-return", "side", op.Side, "n", op.N, "outcome", outcome(err))
 			})
-		case "notify":
+		case "notify", "notify-bad":
 			run(op.At, func() {
 				log.Add("notify-start", "side", op.Side, "n", op.N)
 				var err error
 				p := &mcp.ProgressNotificationParams{Meta: mcp.Meta{"nonce": op.N}, ProgressToken: "t", Progress: 1}
+				if op.Kind == "notify-bad" {
+					p.Progress = math.NaN()
+				}
 				if op.Side == "client" {
 					err = cs.NotifyProgress(ctx, p)
 				} else {
@@ -352,6 +359,9 @@ func runC05(c *vh.Case, spec c05Spec) {
 	log.Add("post-call-return", "outcome", outcome(err))
 	if pair.InProc != nil {
 		pair.InProc.Wait()
+	}
+	if pair.Release != nil {
+		pair.Release()
 	}
 	time.Sleep(11 * time.Second)
 }
@@ -450,7 +460,7 @@ func decideC05(c *vh.Case, spec c05Spec) {
 				c.Violate("close-never-returned", "%s.Close never returned", side)
 				return
 			}
-			if spec.Transport == "mem" || spec.Transport == "pipe" {
+			if spec.Transport == "mem" || spec.Transport == "pipe" || spec.Transport == "pipe-stubborn" {
 				for _, cr := range closeRet[side] {
 					// the session's own work that had completed when this Close call returned
 					last := fc.T
